@@ -102,6 +102,27 @@ func main(a, b [16]byte) ([]byte, []byte, string) {
 	return aes.Block128(a, b), s[0:4], hex.EncodeToString(b[0:2])
 }
 `,
+	// does not compile: the error is found after main has called into imported packages, so the compiler has
+	// parsed, initialised and instantiated them by then; what it leaves behind must not reach a later compilation
+	"failing": `package main
+
+import (
+	"bytes"
+	"crypto/sha1"
+	"encoding/hex"
+	"math"
+)
+
+func main(a, b [8]byte) ([]byte, int32) {
+	d := sha1.Sum(a[:])
+	h := hex.EncodeToString(d[0:2])
+	var r int32 = math.MaxInt16
+	if bytes.Compare(a[:], b[:]) > 0 {
+		r = r + int32(h[0]) + undefinedName
+	}
+	return d[0:4], r
+}
+`,
 	"hmac": `package main
 
 import (
